@@ -45,6 +45,13 @@ Theorem escape_then_cut_refuted :
 Proof. exists ("a" ++ s_quote ++ "b"), 2%nat. vm_compute. split; reflexivity. Qed.
 Print Assumptions escape_then_cut_refuted.
 
+(* builder.formatValue: every formatted value is escaped on its own -- a valid quoted body whatever
+   text FormatValue returns for it, independently of what it returns for any other value (the
+   total included: a total that displays as a bare 0 says nothing about the unit of the others) *)
+Theorem formatted_value_is_safe : forall table v, qsafe (fmt_value table v) = true.
+Proof. exact fmt_value_safe. Qed.
+Print Assumptions formatted_value_is_safe.
+
 (* ---------------- whole documents ---------------- *)
 (* for ALL graphs, titles, legends, tags, names, files, units: with the caller's own attribute
    values and the percentage oracle well-formed, the text ComposeDot writes is a syntactically
@@ -230,3 +237,11 @@ Proof.
            first [exfalso; apply Hp; reflexivity | split; [simpl; auto 12 | reflexivity]]|]).
   destruct H.
 Qed.
+(* a total that displays as 0 (no unit) while the node values carry a hostile unit: -mean *)
+Example zero_total_hostile_unit_is_well_formed :
+  let u := "ti" ++ s_quote ++ "cks" in
+  let g := w_graph "main.go" u [] in
+  dot_valid (compose_dot {| dg_title := dg_title g; dg_url := ""; dg_labels := []; dg_total := 0;
+                            dg_fv := [(0, "0"); (10, "10" ++ u)]; dg_pct := [(10, "0%")];
+                            dg_nodes := dg_nodes g; dg_edges := [] |}) = true.
+Proof. vm_compute. reflexivity. Qed.
